@@ -231,3 +231,72 @@ void harness_view()
     if (n > T) WITNESS("request beyond the total");
 }
 }
+
+// =====================================================================================================================
+// The owning class (iovector / IOVectorEntity): wrappers that re-derive iov_begin / iov_end from the view, and the copying
+// paths of extract_front/back_continuous (do_malloc through the vector's allocator).  Same oracle: the flat byte string.
+#ifdef OWN
+typedef IOVectorEntity<NEL + 1, 0> OVec;               // IOVector is IOVectorEntity<32, 4>: same template, larger arrays
+static Raw<OVec> OV;
+static int n_alloc, n_dealloc; static bool alloc_failed; static uint8_t* alloc_blk; static int alloc_size;
+static int own_alloc_cb(void*, IOAlloc::RangeSize sz, void** out)
+{
+    n_alloc++;
+    CHECK(sz.min >= 0 && sz.max >= sz.min, "the allocator is asked for a non-negative, ordered size range");
+    CHECK(n_alloc == 1, "one operation allocates at most one gather buffer");
+    if (nondet_bool() || sz.max > TMAX + 2 || n_alloc > 1) { alloc_failed = true; return -1; }
+    alloc_blk = xmalloc_set(6, sz.max); alloc_size = sz.max;     // exact-size block: writing past the request is out of bounds
+    *out = alloc_blk;
+    return sz.max;
+}
+static int own_dealloc_cb(void*, void*) { n_dealloc++; return 0; }
+extern "C" void harness_own()
+{
+    Vec v; mk(v, NEL, 0);
+    OVec& o = *new (&OV.v) OVec(IOAlloc(IOAlloc::Allocator(nullptr, &own_alloc_cb), IOAlloc::Deallocator(nullptr, &own_dealloc_cb)));
+    for (int i = 0; i < NEL; i++) { if (i >= v.cnt) break; o.push_back(v.iov[i].iov_base, v.iov[i].iov_len); }
+    const size_t T = v.total;
+    uint8_t n8 = nondet_u8(); ASSUME(n8 <= TMAX + 2);
+    size_t n = n8;
+    uint8_t after[TMAX + 1]; size_t ta;
+    CHECK(o.sum() == T && o.iovcnt() == v.cnt, "the owning vector denotes the pushed elements");
+    bool back = nondet_bool();
+#if OP == 0   // extract_front_continuous / extract_back_continuous (incl. the gathering path)
+    uint8_t* p = (uint8_t*)(back ? o.extract_back_continuous(n) : o.extract_front_continuous(n));
+    ta = flatten(o.view(), after);
+    if (p) {
+        CHECK(n <= T, "a contiguous extract never exceeds the content");
+        if (!back) { CHECK(eq(p, v.flat, n), "contiguous front extract holds the first bytes"); CHECK(ta == T - n && eq(after, v.flat + n, ta), "remaining bytes after contiguous front extract"); }
+        else { CHECK(eq(p, v.flat + (T - n), n), "contiguous back extract holds the last bytes"); CHECK(ta == T - n && eq(after, v.flat, ta), "remaining bytes after contiguous back extract"); }
+        if (n_alloc) { CHECK(p == alloc_blk && alloc_size == (int)n, "a gathered extract lives in a buffer of exactly the requested size"); WITNESS("contiguous extract gathered from several elements"); }
+        else if (n > 0) WITNESS("contiguous extract inside one element");
+    } else {
+        CHECK(n > T || alloc_failed || n == 0, "a contiguous extract of at most the content fails only when the allocation fails");
+        CHECK(ta == T && eq(after, v.flat, ta), "a failed contiguous extract leaves the vector denoting the same bytes");
+        if (n > T && v.cnt >= 2) WITNESS("contiguous extract beyond the content refused");
+        if (alloc_failed) WITNESS("allocation failed");
+    }
+#elif OP == 1   // extract_front(bytes) / extract_back(bytes) / with copy-out: iov_begin / iov_end re-derived from the view
+    bool copy = nondet_bool();
+    uint8_t* buf = xmalloc_set(5, n);
+    size_t r = back ? (copy ? o.extract_back(n, buf) : o.extract_back(n)) : (copy ? o.extract_front(n, buf) : o.extract_front(n));
+    CHECK(r == mn(n, T), "extract returns min(count, total)");
+    ta = flatten(o.view(), after);
+    CHECK(ta == T - r && eq(after, back ? v.flat : v.flat + r, ta), "extract leaves exactly the remaining bytes");
+    // (a truncated back extract right-aligns the bytes in the caller's buffer of `n` bytes; where they land is not part of the flat-string
+    //  contract, so - as in the view-level job extract_back_buf - the copied bytes of a back extract are compared for n <= total only)
+    if (copy && (!back || n <= T)) CHECK(eq(buf, back ? v.flat + (T - r) : v.flat, r), "extract copies out exactly the extracted bytes");
+    CHECK(n_alloc == 0, "plain extracts do not allocate");
+    if (r > 0 && r < T) WITNESS("partial extract");
+    if (n > T) WITNESS("extract beyond the content is truncated");
+#elif OP == 2   // shrink_to / truncate-down
+    size_t r = o.shrink_to(n);
+    CHECK(r == mn(n, T), "shrink_to returns min(size, total)");
+    ta = flatten(o.view(), after);
+    CHECK(ta == r && eq(after, v.flat, ta), "shrink_to keeps exactly the leading bytes");
+    if (r < T && r > 0) WITNESS("shrunk");
+#endif
+    CHECK(o.iovcnt() <= NEL + 1 && o.front_free_iovcnt() + o.iovcnt() <= NEL + 1, "the element window stays inside the array");
+    if (T == TMAX) WITNESS("full-size vector");
+}
+#endif
